@@ -50,7 +50,44 @@ def gen_cases(ctx, rng):
                 cases.append(L.cap_case(c, 1500))
                 stats["N"][str(N)] = stats["N"].get(str(N), 0) + 1
                 stats["payload_vs_N"]["below" if total < base else ("equal" if total == base else "above")] += 1
+    # updates of the toxic's own limit between chunks (the counter carries over, the new limit applies at once)
+    nupd = 40 if ctx.tier == "quick" else 1500
+    for i in range(nupd):
+        N0 = rng.choice([0, 1, 50, 100, 1000])
+        src, ops, t = [], [], 5 * L.MS
+        for _ in range(rng.range(2, 6)):
+            src.append({"at": t, "n": rng.range(1, 120)})
+            t += 10 * L.MS
+            if rng.chance(1, 2):
+                ops.append({"at": t - 5 * L.MS, "op": "update", "name": "d",
+                            "body": '{"attributes": {"bytes": %d}}' % rng.choice([0, 1, 30, 70, 100, 200, 5000])})
+        src.append({"at": t + 5 * L.MS, "close": True})
+        cases.append({"dir": "downstream", "chain": [L.tx("limit_data", name="d", bytes=N0)], "src": src, "ops": ops,
+                      "horizon": 3600 * 1000 * L.MS, "seed": 5000 + i, "links": rng.choice([1, 1, 2])})
+        stats["limit_updates"] = stats.get("limit_updates", 0) + 1
     return cases, stats
+
+
+def expected_with_updates(case):
+    """independent reference for limit updates: per chunk, forward min(len, max(0, N_current - counter))"""
+    N = case["chain"][0]["attributes"]["bytes"]
+    ops = sorted(case.get("ops") or [], key=lambda o: o["at"])
+    counter, closed = 0, False
+    import json as _j
+    for e in case["src"]:
+        if e.get("close") or closed:
+            break
+        for o in ops:
+            if o["at"] <= e["at"] and not o.get("_done"):
+                N = _j.loads(o["body"])["attributes"]["bytes"]
+                o["_done"] = True
+        take = min(e["n"], max(0, N - counter))
+        counter += take
+        if N - counter <= 0:
+            closed = True
+    for o in ops:
+        o.pop("_done", None)
+    return counter
 
 
 def oracle(case, res):
@@ -61,6 +98,13 @@ def oracle(case, res):
         return None
     N = ds[0]["attributes"]["bytes"]
     sent = sum(e.get("n", 0) for e in case["src"])
+    if case.get("ops"):
+        if len(case["chain"]) != 1:
+            return None
+        want = expected_with_updates(case)
+        if not res["prefix_ok"] or res["total"] != want:
+            return "with limit updates: receiver got %d bytes, expected %d" % (res["total"], want)
+        return None
     want = min(max(N, 0), sent)
     if not res["prefix_ok"]:
         return "bytes received are not a prefix of the bytes sent"
@@ -77,11 +121,13 @@ def oracle(case, res):
 def run(ctx):
     return L.run_link_property(
         ctx, PID, gen_cases, oracle,
-        classify=lambda w: "wrong-prefix" if ("expected exactly" in w or "prefix" in w) else ("close" if "closed" in w else "crash"),
+        known_class=lambda c, r, w: "limit-wrap" if c.get("f11") and "with limit updates" in w else None,
+        model_filter=lambda c: not c.get("ops"),
+        classify=lambda w: "limit-update" if "with limit updates" in w else "wrong-prefix" if ("expected exactly" in w or "prefix" in w) else ("close" if "closed" in w else "crash"),
         rule="N over {min64,-1,0,1,2,99,100,101,32767,32768,32769,10^6} x payload lengths N-2..N+2 and random x chunkings (whole, "
              "all-ones for short payloads, random compositions), limit_data behind/ahead of 0-2 preserving stages, 1-3 connections; "
              "non-trivial = payload reaches the limit; distinct by JSON",
-        nontrivial=lambda c: sum(e.get("n", 0) for e in c["src"]) >= max(1, [t for t in c["chain"] if t["type"] == "limit_data"][0]["attributes"]["bytes"]),
+        nontrivial=lambda c: bool(c.get("ops")) or sum(e.get("n", 0) for e in c["src"]) >= max(1, ([t for t in c["chain"] if t["type"] == "limit_data"] or [{"attributes": {"bytes": 1 << 62}}])[0]["attributes"]["bytes"]),
         assumptions=["updates of the limit and reconfiguration of neighbours between chunks are exercised by the C02/C04 runs; "
                      "the restart rule is theorem C11_restart",
                      "known finding F11: the budget N - counter wraps for N near min64 after bytes were counted"])
